@@ -347,7 +347,7 @@ def emit_monitor(prefix, members, methods, comment):
     L.append('Definition %s_other_members : list (string * string) := [%s].' % (
         prefix, '; '.join('(%s, %s)' % (coqstr(m['name']), coqstr(m['type'])) for m in members if m['kind'] not in ('scalar', 'cv'))))
     L.append('Definition %s_methods : list mmethod :=' % prefix)
-    L.append('  [' + ';\n   '.join('{| mm_name := %s;\n      mm_body := %s |}' % (coqstr(m['name'] + ('#' + str(i) if [x['name'] for x in methods].count(m['name']) > 1 else '')), m['ir'])
+    L.append('  [' + ';\n   '.join('{| mm_name := %s;\n      mm_body := %s |}' % (coqstr(m['name'] + (('@container' if m['objparam'] else '@bytes') if [x['name'] for x in methods].count(m['name']) > 1 else '')), m['ir'])
                                    for i, m in enumerate(methods)) + '].')
     L.append('')
     return '\n'.join(L) + '\n'
